@@ -338,7 +338,7 @@ def r_space_writers(ctx):
     repo = ctx.repo
     n = 0
     for attr in ("free_space", "capacity"):
-        for fi, node, kind, det in scan().attr_sites(attr, ("cascade.shm", "cascade.executor")):
+        for fi, node, kind, det in scan().attr_sites(attr, ("cascade.shm", "cascade.executor"), owner=f"{DS}.Manager"):
             if kind not in ("store", "aug"):
                 continue
             n += 1
@@ -376,7 +376,7 @@ def r_residency_pairing(ctx):
     covered = {f"{DS}.Manager.add", f"{DS}.Manager.page_in", f"{DS}.Manager.page_out.callback", f"{DS}.Manager.purge",
                f"{DS}.Manager.page_out", f"{DS}.Manager.page_in.callback", f"{DS}.Manager.get"}
     n = 0
-    for fi, node, kind, det in scan().attr_sites("free_space", ("cascade.shm",)):
+    for fi, node, kind, det in scan().attr_sites("free_space", ("cascade.shm",), owner=f"{DS}.Manager"):
         if kind != "aug":
             continue
         n += 1
@@ -515,14 +515,17 @@ def r_purge(ctx):
     # atexit purges every key with is_exit=True
     ax = repo.func(f"{DS}.Manager.atexit")
     ctx.analysed(ax.qual)
-    paths = Interp(repo).explore(ax, env={"self.datasets": {"k1": dset(name="x"), "k2": dset(name="y")}})
+    model = {f"k-{s_}": dset(s_, name=f"d-{s_}") for s_ in STATES}  # one dataset in every status: each but on_disk owns a segment
+    paths = Interp(repo, max_concrete_iter=40).explore(ax, env={"self.datasets": model})
     for p in paths:
         pc = [e for e in p.effects if is_call(e, qual=f"{DS}.Manager.purge")]
         keys = sorted(e.data["args"][0] for e in pc if e.data["args"])
         flags = [e.data["kwargs"].get("is_exit", e.data["args"][1] if len(e.data["args"]) > 1 else False) for e in pc]
         dk = [e for e in p.effects if e.kind == "call" and e.data.get("method") == "atexit" and (e.data.get("field") or "").endswith("Manager.disk")]
-        if keys != ["k1", "k2"] or flags != [True, True] or not dk:
-            ctx.violation(rid, ax.qual, loc(ax), "exit cleanup", f"Manager.atexit purges {keys} with is_exit={flags}, disk.atexit called={bool(dk)}; every key must be purged with is_exit=True")
+        need = sorted(f"k-{s_}" for s_ in STATES if s_ != "on_disk")
+        if not set(need) <= set(keys) or any(f is not True for f in flags) or not dk:
+            ctx.violation(rid, ax.qual, loc(ax), "exit cleanup", f"one dataset per status {list(STATES)}: Manager.atexit purges {keys} with is_exit={flags}, disk.atexit called={bool(dk)}; "
+                          f"every dataset that may own a segment ({need}: being written, readable, being paged out or in) must be purged with is_exit=True, else the segment stays in /dev/shm")
         else:
             ctx.ok(rid, loc(ax), "atexit purges every dataset with is_exit=True, then cleans the disk area")
 
@@ -1061,3 +1064,125 @@ def r_disk_copy(ctx):
         ctx.violation(rid, fi.qual, loc(fi), "page-in reads the file page-out wrote", f"page-in opens {vkey(pin[0].data['args'][0])}, page-out writes '/spill/s1'")
     elif pin:
         ctx.ok(rid, loc(fi), "page-in opens the file page-out wrote")
+
+
+def r_client_failures(ctx):
+    """C09.R14 / C05: failure behaviour of the client: (a) when the server cannot be reached (recv raises ConnectionRefusedError) a
+    command fails — it is raised, or retried only while its time budget is being used up, never retried for ever; (b) closing a buffer
+    tells the server that the reader / writer is gone only if the local close succeeded — when `shm.close()` raises (a view is still
+    exported) the process still holds the segment, and deregistering it lets a purge / page-out hit memory that is in use."""
+    repo = ctx.repo
+    rid = "C09.R14" if ctx.pid == "C09" else "C05.R9"
+    sfi = repo.func(f"{CLI}._send_command")
+    ctx.analysed(sfi.qual)
+    from ..terms import ClassRef
+    ip = Interp(repo, max_while=5, raising=lambda d: "builtins.ConnectionRefusedError" if d.get("method") == "recv" else None,
+                call_models={**MODELS, f"{API}.deser": lambda run, a, k, n, f: Obj(f"{API}.OkResponse", {"error": ""}, name="ok")})
+    paths = ip.explore(sfi, env={}, args={"comm": Obj(f"{API}.GetRequest", {"key": "k"}, name="req"), "resp_class": ClassRef(f"{API}.OkResponse"), "timeout_sec": 60.0})
+    ctx.evals(len(paths))
+    n = 0
+    for p in paths:
+        recvs = [e for e in p.effects if e.kind == "call" and e.data.get("method") == "recv"]
+        failed = [e for e in p.effects if e.kind == "raise" and (e.data.get("from_call") or "").endswith("recv")]
+        if not recvs or len(failed) != len(recvs):
+            continue  # a path on which some recv succeeded
+        n += 1
+        spin = [e for e in p.effects if e.kind == "loop_exit" and e.data.get("bound")]
+        budget = [e for e in p.effects if e.kind == "aug" and "timeout_sec" in str(e.data.get("target"))]
+        if spin and len(budget) < len(recvs) - 1:
+            ctx.violation(rid, sfi.qual, loc(sfi), "unreachable server: the command fails in bounded time",
+                          f"every recv raises (server gone): after {len(recvs)} attempts the command is still retrying and its time budget was charged {len(budget)} time(s) — "
+                          f"a worker talking to a dead shm server never returns, is never reported as failed and blocks the executor's shutdown")
+        elif p.exit[0] != "raise" and not spin:
+            ctx.violation(rid, sfi.qual, loc(sfi), "unreachable server: the command fails", f"every recv raises but the command ends {p.exit[0]} {vkey(p.exit[1])[:60]}")
+        else:
+            ctx.ok(rid, loc(sfi), f"unreachable server: {'raised at once' if not spin else 'retried against the time budget'}")
+    ctx.floor(f"{rid}.unreachable_paths", n, 1)
+    # (b) close: server notified only after a successful local close
+    cfi = repo.func(f"{CLI}.AllocatedBuffer.close")
+    ctx.analysed(cfi.qual)
+    sent = []
+    SEG = Obj("multiprocessing.shared_memory.SharedMemory", {"_name": "n"}, name="SEG")
+    ip = Interp(repo, raising=lambda d: "builtins.BufferError" if d.get("method") == "close" and getattr(d.get("recv_value"), "name", "") == "SEG" else None)
+    cb = ModelFn_("notify-server")
+    paths = ip.explore(cfi, env={"self.shm": SEG, "self.close_callback": cb}, args={})
+    ctx.evals(len(paths))
+    m = 0
+    for p in paths:
+        failed = any(e.kind == "raise" and (e.data.get("from_call") or "").endswith("close") for e in p.effects)
+        told = [e for e in p.effects if e.kind == "call" and "notify-server" in vkey(e.data.get("callee"))]
+        if failed:
+            m += 1
+            if told:
+                ctx.violation(rid, cfi.qual, loc(cfi, told[0].node), "server told about a close that did not happen",
+                              "when self.shm.close() raises (e.g. BufferError: a view is still exported) the close callback is sent all the same: the server drops the reader "
+                              "while this process still maps the segment, so a purge or page-out can hit memory in use")
+            else:
+                ctx.ok(rid, loc(cfi), "failed local close: the server is not told the reader is gone")
+        elif len(told) != 1:
+            ctx.violation(rid, cfi.qual, loc(cfi), "server told about the close", f"successful close: the close callback is invoked {len(told)} time(s)")
+    ctx.floor(f"{rid}.failed_close_paths", m, 1)
+
+
+def ModelFn_(name):
+    from ..terms import ModelFn
+    return ModelFn(name, lambda run, a, k, n, f: None)
+
+
+def r_manager_init(ctx):
+    """C08.R6: a new store starts with free_space == capacity, and capacity never exceeds what the machine offers (configured None,
+    less than, equal to and more than the available amount)."""
+    repo = ctx.repo
+    fi = repo.func(f"{DS}.Manager.__init__")
+    ctx.analysed(fi.qual)
+    for cfg, want in ((None, 8), (5, 5), (8, 8), (100, 8)):
+        ip = Interp(repo, call_models={**MODELS, f"{DS}.get_capacity": lambda run, a, k, n, f: 8})
+        paths = ip.explore(fi, env={}, args={"prefix": "p", "capacity": cfg})
+        ctx.evals(len(paths))
+        row = {"configured": cfg, "available": 8}
+        for p in paths:
+            cap, free = p.heap.get("self.capacity"), p.heap.get("self.free_space")
+            if p.exit[0] != "return" or cap != want or free != want:
+                ctx.violation("C08.R6", fi.qual, loc(fi), "initial capacity and free space",
+                              f"{row}: the store starts with capacity={vkey(cap)} free_space={vkey(free)} ({p.exit[0]}); expected both = {want} — free space above the "
+                              f"capacity lets add() grant more than the machine has", row=row)
+                break
+        else:
+            ctx.ok("C08.R6", loc(fi), f"Manager() | {row} -> capacity = free_space = {want}")
+
+
+def r_size_nonnegative(ctx):
+    """C08.R7: the size that reaches Manager.add from the wire cannot be negative: either AllocateRequest decodes its length as an
+    unsigned integer, or add() refuses a negative size — a negative size passes both capacity checks and `free_space -= size` then
+    *raises* the free space above the capacity."""
+    repo = ctx.repo
+    from .C17 import _deser_field, INL as C17_INL
+    des = repo.find_method(f"{API}.AllocateRequest", "deser")
+    ctx.analysed(des.qual)
+    dp = Interp(repo, inline=C17_INL).explore(des)
+    ctx.evals(len(dp))
+    signed = None
+    if len(dp) == 1 and dp[0].exit[0] == "return" and isinstance(dp[0].exit[1], App):
+        rv = dp[0].exit[1]
+        names = list(repo.classes[f"{API}.AllocateRequest"].fields)
+        fields = {names[i]: a for i, a in enumerate(rv.args) if i < len(names)}
+        fields.update(dict(rv.kwargs))
+        f = _deser_field(fields.get("l"))
+        if f is not None and f[0] == "int":
+            signed = f[4]
+    # does add() itself refuse a negative size?
+    fi = repo.func(f"{DS}.Manager.add")
+    env = {"self.datasets": {}, "self.capacity": 10, "self.free_space": 4, "self.prefix": "p"}
+    guarded = True
+    for p in Interp(repo, call_models=MODELS).explore(fi, env=env, args={"key": "k", "size": -6, "deser_fun": "df"}):
+        f_after = p.heap.get("self.free_space")
+        if p.exit[0] == "return" and (not isinstance(f_after, int) or f_after > 4 or "k" in (p.heap.get("self.datasets") or {})):
+            guarded = False
+    if signed is None and not guarded:
+        ctx.undecided("C08.R7", loc(des), "cannot read how AllocateRequest decodes its length, and Manager.add accepts a negative size")
+    elif signed and not guarded:
+        ctx.violation("C08.R7", des.qual, loc(des), "allocation size cannot be negative",
+                      "AllocateRequest.deser decodes the requested length as a *signed* integer and Manager.add does not refuse a negative size: a datagram with the top "
+                      "bit set is granted, free_space -= size raises the free space above the capacity, and later requests that do not fit are granted")
+    else:
+        ctx.ok("C08.R7", loc(des), f"allocation size is non-negative ({'unsigned decode' if not signed else 'guard in add()'})")
